@@ -210,6 +210,9 @@ def build_lines(fmt, thorough, seed):
                  "tmin": w[0], "tmax": w[1], "idx": idx, "code": code}
             if fmt == "kida":
                 r["tmin"], r["tmax"] = str(int(float(w[0]))), str(int(float(w[1])))
+                # the itype column (1 direct cosmic-ray process, 2 cosmic-ray-induced photo-process, 3 photo-process, 4-8
+                # bimolecular classes) does not enter the formula
+                r["itype"] = {1: (1, 2)[k % 2], 2: 3}.get(code, (4, 5, 6, 7, 8)[k % 5])
             if fmt == "umist" and k % 4 == 1:
                 # an entry tabulated with further fits (NE = 2 or 3) for other temperature ranges: one reaction per line,
                 # coefficients and window of the first block
@@ -317,8 +320,9 @@ def _analyse(fmt, tier, seed, which, res):
 
     thorough = tier == "thorough"
     surface = fmt.endswith("+surface")
+    api = fmt.endswith("+api")  # the native types, reactions built through the Python constructor instead of read from a file
     fmt = fmt.split("+")[0]
-    tag = fmt + ("+surface" if surface else "")
+    tag = fmt + ("+surface" if surface else "") + ("+api" if api else "")
     if surface:
         lines, fam = surface_lines(fmt)
     else:
@@ -335,7 +339,11 @@ def _analyse(fmt, tier, seed, which, res):
             "targets": [dict(proj.TARGETS[t]) for t in (("dense", "odeint", "sparse", "cusparse") if which == "C06" and not surface else ("dense", "odeint"))]}
     if surface:
         spec["network"]["grain_model"] = SURFACE_MODEL[fmt]
-    p = proj.render(f"rates-{fmt}" + ("-surface" if surface else ""), spec)
+    if api:
+        from ..corpus import rx
+        spec = {"reactions": [rx(r["reactants"], r["products"], t=int(r["code"]), a=float(r["a"]), b=float(r["b"]), c=float(r["c"]), tmin=float(r["tmin"]), tmax=float(r["tmax"]), idx=r["idx"]) for r in alln],
+                "network": {}, "targets": spec["targets"]}
+    p = proj.render(f"rates-{fmt}" + ("-surface" if surface else "") + ("-api" if api else ""), spec)
     if not p.ok:
         # a well-formed file the generator cannot read: that is C07's subject, but nothing can be decided here
         res["errors"].append(f"generator failed on the encoder-written {fmt} file: {p.meta.get('error')}")
@@ -492,7 +500,7 @@ def _analyse(fmt, tier, seed, which, res):
                 else:
                     res["unknown"].append((f"{fmt}/{tdir}:adjacent", rr))
         res["solver_s"] += time.time() - t0
-    if which == "C06" and not surface:
+    if which == "C06" and not surface and not api:
         for tdir in ("cvode_dense", "cvode_sparse", "cvode_cusparse", "odeint_rosenbrock4"):
             if not p.target_ok(tdir):
                 continue
@@ -600,7 +608,7 @@ def _work(args):
 def main(pid, tier):
     chk = Check(pid, tier)
     proj.ensure_venv()
-    fmts = ["kida", "umist", "leeds", "uclchem", "naunet"] + (["krome", "leeds+surface", "uclchem+surface"] if pid == "C06" else [])
+    fmts = ["kida", "umist", "leeds", "uclchem", "naunet"] + (["krome", "leeds+surface", "uclchem+surface"] if pid == "C06" else []) + ["naunet+api"]
     ctx = mp.get_context("fork")
     with cf.ProcessPoolExecutor(max_workers=6, mp_context=ctx) as ex:
         results = list(ex.map(_work, [(f, tier, chk.seed, pid) for f in fmts]))
